@@ -18,7 +18,12 @@ import (
 )
 
 const repoDir = "/repo"
-const verifDir = "/verif"
+var verifDir = func() string {
+	if d := os.Getenv("VERIF_DIR"); d != "" {
+		return d
+	}
+	return "/verif"
+}()
 const repoMod = "github.com/BlackVectorOps/semantic_firewall/v3"
 const harnessTag = "verif_harness"
 
